@@ -196,6 +196,16 @@ impl PathSelector {
         })
     }
 
+    /// Returns true if the given path fully matches one of the exclude patterns.
+    pub fn is_excluded(&self, path: &Path) -> bool {
+        self.with_absolute_path(path, |path| {
+            let paths = self.names_of(path.to_string_lossy());
+            self.excluded_paths
+                .iter()
+                .any(|p| paths.iter().any(|path| p.matches(path)))
+        })
+    }
+
     /// Returns true if the given directory may contain matching paths.
     /// Used to decide whether the directory walk should descend to that directory.
     /// The directory should be allowed only if:
